@@ -2,6 +2,8 @@
 import os, sys, json, random
 from vlib import *
 import transport_lib as T
+sys.path.insert(0, os.path.join(ROOT, 'translator'))
+import async_transport
 
 PROP = 'C17'
 
@@ -18,22 +20,26 @@ def run_check(tier, seed):
                       'whole requests: Proofs/TransportServer.v bridges to the server model (Model/Server.v decide/perform, owned by the server properties C02/C03): for every reply action the writer operations perform issues are run on the segment-level writer; that the real handlers issue these operations is the server model\'s own correspondence (C03 harness) plus the 200 real requests run here each time']
     findings = []; broken = []
     rng = random.Random(seed * 7919 + 17)
+    try:
+        async_transport.generate(REPO)        # Gen/AsyncTransport.v is in the cone (fusedev part of Proofs/TransportAsync.v)
+    except async_transport.TranslateError as ex:
+        broken.append({'kind': 'translator', 'item': 'translator/async_transport.py', 'error': str(ex)})
     audit = std_audit(ev, PROP, broken)
     if tier == 'thorough' and audit['ok']: T.coqchk(PROP, ev, broken)
-    ok, out, bindir = cargo_build(['transport'])
+    ok, out, bindir = cargo_build(['transport'], features=['async-io'])
     if not ok:
         broken.append({'kind': 'harness-build', 'log': out[-3000:]})
         ev.cov['rule'] = 'harness did not build'; ev.cov['samples'] = [{'note': 'no run'}]
         return finish(ev, PROP, findings, broken)
     scale = 1 if tier == 'quick' else 8
     if broken: scale *= 4
-    n = 220 * scale
+    n = 200 * scale
     # random chains and op sequences, 50% of them on a dirty log that is not empty at the start (random / all / alternating pages);
     # then the deterministic family for long-lived logs: one writable segment of 3-5 pages, sub-writers written out of
     # order (trailer and header before the payload), stores of several pages through write / write_vectored /
     # write_from(_at) / write_all_from, initial log = exactly the end pages of each upcoming multi-page store (or none/all/alternating/random)
     cases = T.gen_vcases(rng, n // 2, writer_bias=True, dirty_init=True) + T.gen_vcases(rng, n - n // 2, dirty_init=True) \
-        + [T.gen_dirty_case(rng) for _ in range(120 * scale)]
+        + [T.gen_dirty_case(rng) for _ in range(100 * scale)] + [T.gen_short_case(rng) for _ in range(100 * scale)]
     txt = [T.case_text_v(c) for c in cases]
     outs, err = T.run_harness(bindir, 'virtio', txt, 'c17')
     evals = 0; shapes = set(); samples = []
@@ -92,7 +98,7 @@ def run_check(tier, seed):
 
 def replay(path):
     obj = json.load(open(path))
-    ok, out, bindir = cargo_build(['transport'])
+    ok, out, bindir = cargo_build(['transport'], features=['async-io'])
     if not ok: print(out[-2000:]); return 2
     rc = 0
     for f in obj.get('failing', []) + [b for b in obj.get('broken', []) if b.get('case')]:
